@@ -23,14 +23,23 @@ rule = ("scripts = 'g begin', ops, 'g end', one driver process per script; strea
         "(an element with k in 0..5 children on a level of m in 1..4 items, at every position, on the top level and below "
         "another element, is removed, optionally a sibling too, then a new name / the same name / a sibling / a new name with "
         "child is assigned on that level; all old and new paths queried before and after); mpt::path::add/next/del; random "
-        "histories over a 6-name pool with depth <=3, clear, and names/values across 255 bytes; non-trivial = a history in which a removal or an overwrite changed the stored pairs while "
+        "histories over a 6-name pool with depth <=3, clear, and names/values across 255 bytes; stream 7: every path of <=4 (5) "
+        "elements over {a,bb,ccc,empty} built with addchar/valid/add in both modes, advanced by 0..n-1 mpt_path_next calls "
+        "on the same object (offset > 0), then del + add of another element + walk; stream 6 (both parts): refused "
+        "assignments - an int32 value (no text form) and a path element of 65535/65536 bytes at every position - on paths "
+        "with 0..3 missing elements through every front end (NULL config, private list, views on an inner element, a valued "
+        "leaf and a missing base), existence of every prefix checked before and after; every output line lists ALL elements "
+        "of the trees (with and without value), compared with the specification's set of existing elements; non-trivial = a history in which a removal or an overwrite changed the stored pairs while "
         "at least two pairs were stored (seen in the code's output), counted per distinct script")
 assumptions = [
     "path texts and values are C strings (no zero byte); the assign character is 0 for set/get/del as in mpt_config_set/get",
     "the node list operations used by the configuration tree behave as C14 shows (first match, append, unlink+destroy)",
     "malloc never fails in the harness runs",
-    "the existence check (query without handler) of a path that holds no value is not constrained by the map: both "
-    "implementations report value-less intermediate elements as present, the C++ one also elements emptied by remove",
+    "which elements exist (with or without value) is part of the specification for the node trees: the non-empty "
+    "prefixes of every accepted assignment since the last removal that covered them, and nothing else (a refused "
+    "assignment changes nothing); for the C++ item arrays an element emptied by remove may be reported present or absent",
+    "an assignment has to be accepted iff the value is a text and every path element is shorter than 65535 bytes "
+    "(identifier limit); elements of exactly 65534 bytes are not driven (output size)",
 ]
 trusted = ["hand-written model MptModel/Impl/Config.lean tied to mptcore/config/*.c by harness/drv_config.c",
            "hand-written model MptModel/Impl/ConfigItems.lean tied to mpt++/config.cpp + mptcore/config/config_item_*.c by "
@@ -204,11 +213,117 @@ def _stream5(tier, r):
     return out
 
 
+def _stream6(tier, r):
+    """refused assignments (a value without text form; an element that does not fit an identifier) on paths with
+    missing elements, on every front end, followed by existence checks of all prefixes: nothing may have changed"""
+    out = []
+    def has(tr, p, sep="."):
+        return "g has %s %s %s" % (tr, hx(p.replace(".", sep)), hx(sep))
+    def prefixes(p):
+        e = p.split(".")
+        return [".".join(e[:i]) for i in range(1, len(e) + 1)]
+    preludes = [[], ["g set - %s 2e %s" % (hx("a.b"), hx("1"))], ["g set - %s 2e %s" % (hx("a"), hx("1"))],
+                ["g set - %s 2e %s" % (hx("a.b"), hx("1")), "g set - %s 2e %s" % (hx("c"), hx("2"))],
+                ["g set r %s 2e %s" % (hx("a.b"), hx("1"))]]
+    targets = ["a", "a.b", "a.b.c", "a.c", "c", "c.d", "c.d.e", "a.b.c.d"]
+    fronts = [("-", ""), ("r", ""), ("0", "a"), ("1", "a.b"), ("2", "q.r")]
+    k = 0
+    for pre in preludes:
+        for tr, base in fronts:
+            for t in targets:
+                if tr not in ("-", "r") and t.startswith("a"):
+                    t = t[2:] if len(t) > 2 else "z"
+                full = (base + "." + t) if base else t
+                checks = [has("-" if tr != "r" else "r", q) for q in prefixes(full)]
+                if tr not in ("-", "r"):
+                    checks += [has(tr, q) for q in prefixes(t)]
+                probe = _probe() + (_probe("r") if tr == "r" else [])
+                head = ["g begin", "g view 61 2e", "g view %s 2e" % hx("a.b"), "g view %s 2e" % hx("q.r")] + pre
+                # a value without text form
+                out.append(("ref:i:%d" % k, head + checks + ["g seti %s %s 2e" % (tr, hx(t))] + checks + probe + ["g end"]))
+                # ... and the same path assigned for real afterwards
+                out.append(("ref:is:%d" % k, head + ["g seti %s %s 2e" % (tr, hx(t)), "g set %s %s 2e %s" % (tr, hx(t), hx("v"))]
+                            + checks + probe + ["g end"]))
+                k += 1
+    # an element of 65535 bytes and more at every position of the path
+    j = 0
+    for pre in preludes[:3]:
+        for tr, base in fronts:
+            for ppre, suf in (("", ""), ("c.", ""), ("c.d.", ""), ("a.", ""), ("a.b.", ".z"), ("c.", ".z"), ("", ".z.y")):
+                for n in ((65535, 65536) if tier == "quick" else (65535, 65536, 66000, 70000)):
+                    names = [q for q in prefixes((ppre + "L" + suf)) if "L" not in q]
+                    checks = []
+                    for q in names:
+                        full = (base + "." + q) if base else q
+                        checks.append(has("-" if tr != "r" else "r", full))
+                    head = ["g begin", "g view 61 2e", "g view %s 2e" % hx("a.b"), "g view %s 2e" % hx("q.r")] + pre
+                    if base:
+                        checks += [has("-", q) for q in prefixes(base)]
+                    probe = _probe() + (_probe("r") if tr == "r" else [])
+                    out.append(("ref:l:%d" % j, head + checks + ["g setl %s %s %d %s 2e %s" % (tr, hx(ppre), n, hx(suf), hx("v"))]
+                                + checks + probe + ["g end"]))
+                    j += 1
+    # random mixes
+    for i in range(150 if tier == "quick" else 1500):
+        lines = ["g begin", "g view 61 2e", "g view %s 2e" % hx("a.b"), "g view %s 2e" % hx("q.r")]
+        pool = ["a", "a.b", "a.b.c", "c", "c.d", "b", "q", "q.r", "q.r.s", "a.b.z"]
+        for _ in range(r.choice([4, 8, 12])):
+            tr = r.choice(["-", "-", "r", "0", "1", "2"])
+            t = r.choice(pool)
+            kind = r.choice(["set", "set", "seti", "seti", "del", "has", "has", "setl"])
+            if tr == "r" and kind == "del":
+                kind = "has"
+            if kind == "set":
+                lines.append("g set %s %s 2e %s" % (tr, hx(t), hx("v%d" % r.randrange(50))))
+            elif kind == "seti":
+                lines.append("g seti %s %s 2e" % (tr, hx(t)))
+            elif kind == "del":
+                lines.append("g del %s %s 2e" % (tr, hx(t)))
+            elif kind == "setl":
+                lines.append("g setl %s %s %d %s 2e %s" % (tr, hx(r.choice(["", "c.", "a.b.", "n.m."])), r.choice([65535, 65600]),
+                                                         hx(r.choice(["", ".z"])), hx("v")))
+            else:
+                lines.append(has(tr, t))
+        for t in pool + ["n", "n.m"]:
+            lines.append(has("-", t))
+            lines.append(has("r", t))
+        out.append(("ref:rnd:%d" % i, lines + _probe() + ["g end"]))
+    return out
+
+
+def _stream7(tier):
+    """a built path that was advanced with mpt_path_next (offset > 0): del the last element, add another, walk"""
+    lines = ["g begin"]
+    pool = ["a", "bb", "ccc", ""]
+    fmt = lambda e: ",".join(hx(x) for x in e)
+    for mode in ("s", "b"):
+        for n in range(1, 5 if tier == "quick" else 6):
+            for es in itertools.product(pool, repeat=n):
+                if es[0] == "":
+                    continue
+                for skip in range(0, n):
+                    for e2 in ("dd", "", "a"):
+                        if n >= 4 and (e2 != "dd" or tier == "quick" and "" in es):
+                            continue
+                        lines.append("g rebuild %s 2e %s %d %s" % (mode, fmt(es), skip, hx(e2)))
+    for l1 in (254, 255, 256):
+        for mode in ("s", "b"):
+            lines.append("g rebuild %s 2e %s,%s,%s 1 %s" % (mode, hx("x" * l1), hx("ab"), hx("c"), hx("y" * (l1 - 1))))
+    out = []
+    step = 400
+    body = lines[1:]
+    for i in range(0, len(body), step):
+        out.append(("rebuild:%d" % (i // step), ["g begin"] + body[i:i + step] + ["g end"]))
+    return out
+
+
 def scripts(tier, seed, scale=1):
     r2 = gen.rng(id, tier, seed, "mixed")
     r4 = gen.rng(id, tier, seed, "random")
     r5 = gen.rng(id, tier, seed, "binary")
-    return _stream1(tier) + _stream2(tier, r2) + _stream3(tier) + _stream4(tier, r4, scale) + _stream5(tier, r5)
+    r6 = gen.rng(id, tier, seed, "refused")
+    return (_stream1(tier) + _stream2(tier, r2) + _stream3(tier) + _stream4(tier, r4, scale) + _stream5(tier, r5)
+            + _stream6(tier, r6) + _stream7(tier))
 
 
 def nontrivial(script, c_lines):
@@ -336,6 +451,17 @@ class _XX:
         for l1 in (254, 255, 256, 257, 300):
             lines.append("x padd 2e %s,%s" % (hx("x" * l1), hx("ab")))
         out.append(("xpath:build", lines + ["x end"]))
+        # 3b. an element that does not fit an identifier: refused, and no prefix element may have appeared
+        j = 0
+        for pre in ([], ["x set %s 2e %s" % (hx("a.b"), hx("1"))], ["x set %s 2e %s" % (hx("c"), hx("1"))]):
+            for ppre, suf in (("", ""), ("c.", ""), ("c.d.", ""), ("a.", ""), ("a.b.", ".z"), ("", ".z")):
+                for n in (65535, 65536):
+                    e = (ppre + "L" + suf).split(".")
+                    names = [".".join(e[:i]) for i in range(1, len(e) + 1) if "L" not in e[:i]]
+                    checks = ["x has %s 2e" % hx(q) for q in names]
+                    out.append(("xref:%d" % j, ["x begin"] + pre + checks + ["x setl %s %d %s 2e %s" % (hx(ppre), n, hx(suf), hx("v"))]
+                                + checks + X._probe(PATHS) + ["x end"]))
+                    j += 1
         # 4. random histories over a small name pool (deep re-use), incl. long names and values
         r = gen.rng(id, tier, seed, "xx-random")
         names = ["a", "b", "c", "d", "e", ""]
